@@ -282,7 +282,7 @@ def judge_state(state, out, after):
         x2[:, dd] += 0.75
         y2 = state.evaluate(x2)
         sc2 = max(1.0, float(np.max(np.abs(yo))), float(np.max(np.abs(y2))))
-        if np.max(yo - y2) > TOL_MONO_F * sc2:
+        if np.max(yo - y2) > TOL_MONO_F * sc2 + slack:
           out.violate("output decreases along increasing input %d for "
                       "out-of-range points after %s" % (dd, after),
                       kind="monotonicity-outside", **sig)
